@@ -70,9 +70,19 @@ def _slots_finder(clazz, fields_set):
     """
     # ... class level
     try:
-        fields_set.update(clazz.__slots__)
+        slots = clazz.__slots__
     except AttributeError:
         pass
+    else:
+        if isinstance(slots, utils.STRING_TYPES):
+            # A single slot can be declared as a string
+            slots = (slots,)
+
+        for slot in slots:
+            if slot.startswith("__") and not slot.endswith("__"):
+                # Private slot: the attribute carries the mangled name
+                slot = "_{0}{1}".format(clazz.__name__.lstrip("_"), slot)
+            fields_set.add(slot)
 
     # ... parent classes level
     for base_class in clazz.__bases__:
